@@ -44,7 +44,7 @@ Lemma out_item_v1_id i : out_item V1 i = i.
 Proof. reflexivity. Qed.
 
 (* what GetItem returns is the stored item passed through the SDK's output mapper *)
-Lemma get_returns_stored lm lu s c tn key t k :
-  preamble s c tn [] [] [[]] = inr t -> get_key (t_ks t) (t_defs t) key = inr k ->
-  snd (step lm lu s c (OGet tn key)) = ok_obs (PItem (out_item s (get_item t k))) [].
+Lemma get_returns_stored lm lu s c tn key names proj t k :
+  preamble s c tn names [] [proj] = inr t -> get_key (t_ks t) (t_defs t) key = inr k ->
+  snd (step lm lu s c (OGet tn key names proj)) = ok_obs (PItem (out_item s (get_item t k))) [].
 Proof. intros P G. cbn. unfold get_item_op. now rewrite P, G. Qed.
